@@ -6,7 +6,7 @@
    rejected.  The composite statement over description trees is correspondence
    + oracle (prefixes, mutations, random strings, somersault). *)
 From Coq Require Import ZArith List Bool.
-From OV Require Import Base.Bytes Base.Wire Generated Model.Str Model.Codec Proofs.BytesProofs Proofs.AtomicProofs Proofs.CodecProps Proofs.FlatProofs Proofs.FlatDecodeProofs Proofs.TreeDecodeProofs.
+From OV Require Import Base.Bytes Base.Wire Generated Model.Str Model.Codec Proofs.BytesProofs Proofs.AtomicProofs Proofs.CodecProps Proofs.FlatProofs Proofs.FlatDecodeProofs Proofs.TreeDecodeProofs Proofs.DecodeTotalProofs.
 Import ListNotations.
 Open Scope Z_scope.
 
@@ -87,3 +87,30 @@ Example C05_nested_example :
   (exists v, decode_msg (map d_p ts) [34; 1; 188; 10; 3; 255; 9] = Ok v).
 Proof. exact tree_decode_example. Qed.
 Print Assumptions C05_nested_example.
+
+(* ---------- messages with lists (Proofs/DecodeTotalProofs.v) ---------- *)
+(* descriptions (xdesc): standard-length CODED-CONST / VALUE parameters, STRUCTUREs with or without BYTE-SIZE,
+   STATIC-FIELDs, DYNAMIC-LENGTH-FIELDs (unsigned count of any positive bit length) and END-OF-PDU-FIELDs of
+   structures, nested to any depth. For EVERY byte string the outcome of decoding is a dictionary or a decode error:
+   no other error class, and the loops which run to the end of the PDU never exhaust their fuel, i.e. terminate *)
+Theorem C05_message_with_fields_total : forall ts d m,
+  (forall t, In t ts -> (x_depth t <= d)%nat /\ x_wf t) ->
+  (4 * d + 3 <= fuel_of (map x_p ts))%nat ->
+  dec_outcome_ok (decode_msg (map x_p ts) m).
+Proof. exact fields_decode_total. Qed.
+Print Assumptions C05_message_with_fields_total.
+
+Example C05_fields_example :
+  let u8 nm := mkF nm 8 BUint None true BUint None in
+  let u16 nm := mkF nm 16 BUint None true BUint None in
+  let ts := [XLeaf (mkF [115] 8 BUint None true BUint (Some (VInt 98)));
+             XDyn [100] [XLeaf (u8 [97]); XStatic [110] [XLeaf (u16 [118])] 2 2] 8 true;
+             XStruct [112] [XLeaf (u8 [113])] (Some 4);
+             XEop [101] [XLeaf (u8 [120]); XLeaf (u16 [121])]] in
+  (forall t, In t ts -> (x_depth t <= 2)%nat /\ x_wf t) /\
+  (4 * 2 + 3 <= fuel_of (map x_p ts))%nat /\
+  (exists v, decode_msg (map x_p ts) [98; 1; 7; 0; 1; 0; 2; 5; 0; 0; 0; 1; 2; 3; 4; 5; 6] = Ok v) /\
+  decode_msg (map x_p ts) [98; 1; 7; 0; 1; 0; 2; 5; 0; 0; 0; 1; 2; 3; 4; 5] = Err EDecode /\
+  decode_msg (map x_p ts) [98; 2; 7; 0; 1; 0; 2; 5] = Err EDecode.
+Proof. exact fields_decode_example. Qed.
+Print Assumptions C05_fields_example.
